@@ -64,6 +64,10 @@ def check_event(s, ev, out):
     # (iii) a reply is applied exactly once
     if ev['op'][0] == 'rep' and 'unit' in ev:
         u = ev['unit']
+        # known finding: the unit's 'doing' entry was cleared by an upstream
+        # purge AND the job had left the queue before this reply arrived
+        lost = ('@doing-cleared-by-upstream-purge'
+                if u.key in s.lost_keys and not ev['job_queued'] else '')
         comp = [c for c in ev['calls'] if c[0] == 'complete']
         app = [c for c in ev['calls'] if c[0] == 'append']
         upd = [c for c in ev['calls'] if c[0] == 'update']
@@ -72,35 +76,31 @@ def check_event(s, ev, out):
         if comp != [want_c]:
             out.fail(
                 'reply/completion-not-recorded-once'
-                + ('@doing-cleared-by-upstream-purge'
-                   if u.key in s.lost_keys else ''),
+                + lost,
                 f'reply for {u} ({ev["outcome"]}) -> complete calls {comp}; '
                 f'errors={ev["errors"]}',
             )
         if app != [('append', u.jobid, u.target, u.runid, ev['outcome'])]:
             out.fail(
                 'reply/history-not-appended-once'
-                + ('@doing-cleared-by-upstream-purge'
-                   if u.key in s.lost_keys else ''),
+                + lost,
                 f'reply for {u} -> chronicle appends {app}',
             )
         if ev['outcome'] == 'success':
             if [c[:2] for c in upd] != [('update', u.jobid)] or pur:
                 out.fail(
                     'reply/report-not-propagated-once'
-                    + ('@doing-cleared-by-upstream-purge'
-                   if u.key in s.lost_keys else ''),
+                    + lost,
                     f'reply for {u} -> update {upd} purge {pur}',
                 )
         elif [c[:3] for c in pur] != [('purge', u.jobid, u.target)] or upd:
             out.fail(
                 'reply/failure-not-purged-once'
-                + ('@doing-cleared-by-upstream-purge'
-                   if u.key in s.lost_keys else ''),
+                + lost,
                 f'reply for {u} -> update {upd} purge {pur}',
             )
     # classification
-    if ev['op'][0] in ('req', 'rereq', 'reqall'):
+    if ev['op'][0] in ('req', 'rereq', 'reqall', 'requp'):
         for tag in ev['names']:
             ex = s.executing(tag)
             if ex & set(s._targets_of(tag, ev['targets'])):
